@@ -55,6 +55,36 @@ Qed.
 Lemma nth_res_cases {A} (l : list A) i : (exists x, nth_res l i = Ok x) \/ nth_res l i = Err EIndex.
 Proof. unfold nth_res. destruct (nth_error l i); eauto. Qed.
 
+Lemma close_vec_refl rtol atol l : (0 <= rtol)%Q -> (0 <= atol)%Q -> close_vec rtol atol l l.
+Proof.
+  intros Hr Ha. induction l as [|x xs IH]; constructor; [|exact IH].
+  assert (H0 : (x - x == 0)%Q) by ring. rewrite H0. change (Qabs 0) with 0%Q.
+  apply (Qle_trans _ (0 + 0)%Q); [unfold Qle; simpl; lia|].
+  apply Qplus_le_compat; [exact Ha|]. apply Qmult_le_0_compat; [exact Hr | apply Qabs_nonneg].
+Qed.
+
+(** an image that has exactly the extension's shape, slice dimension and affine agrees with every class
+    (per-slice classes need a slice dimension) *)
+Lemma agrees_exact h c :
+  (is_slices c = true -> sdim h <> None) -> agrees (mk_img (shape h) (sdim h) (aff h)) h c.
+Proof.
+  intros Hs. destruct c; cbn [agrees ishape islice iaff]; try reflexivity; try exact I.
+  all: destruct (sdim h) as [d|]; [|exfalso; apply (Hs eq_refl); reflexivity].
+  all: exists d, d; repeat split; try reflexivity.
+  all: apply close_vec_refl; vm_compute; discriminate.
+Qed.
+
+Lemma index_in_bounds_in ix sh : length ix = length sh -> index_in_bounds ix sh = true -> in_bounds ix sh.
+Proof.
+  unfold in_bounds, index_in_bounds. revert sh.
+  induction ix as [|z zs IH]; intros [|n ns] Hl Hb; simpl in *; try discriminate.
+  - split; [reflexivity | intros j Hj; lia].
+  - apply andb_true_iff in Hb as [Hz Hr]. apply andb_true_iff in Hz as [H1 H2].
+    apply Z.leb_le in H1. apply Z.ltb_lt in H2.
+    destruct (IH ns ltac:(lia) Hr) as [_ IH']. split; [lia|].
+    intros [|j] Hj; simpl; [lia | apply IH'; lia].
+Qed.
+
 Section WithV.
   Context {V : Type} (vnone : V).
 
@@ -98,6 +128,17 @@ Section WithV.
     apply Nat.eqb_eq in El. destruct Hb as [Hb|Hb]; [contradiction|]. rewrite Hb. reflexivity.
   Qed.
 
+  Lemma get_meta_out_of_bounds im (e : ext V) k ix d c vs :
+    visible (hdr_of e) (lookup_e e k) = Some (c, vs) -> c <> GConst ->
+    agrees im (hdr_of e) c -> ~ in_bounds ix (ishape im) ->
+    get_meta im e k (Some ix) d = Err EIndex.
+  Proof.
+    intros Hv Hc Ha Hn. eapply get_meta_bounds; eauto.
+    destruct (Nat.eq_dec (length ix) (length (ishape im))) as [El|Ne]; [|left; exact Ne].
+    right. destruct (index_in_bounds ix (ishape im)) eqn:Eb; [|reflexivity].
+    exfalso. apply Hn. apply index_in_bounds_in; assumption.
+  Qed.
+
   (** totality: whatever the image header / index / extension, only IndexError can escape *)
   Lemma get_meta_total im (e : ext V) k ix d :
     (exists v, get_meta im e k ix d = Ok v) \/ get_meta im e k ix d = Err EIndex.
@@ -138,6 +179,131 @@ Section WithV.
       destruct (nth_res_cases ixn sd) as [[i ->]| ->]; [|eauto]. cbn [bind].
       destruct (nth_res_cases ixn 3) as [[i3 ->]| ->]; [|eauto]. cbn [bind].
       apply nth_res_cases.
+  Qed.
+
+  (** ** The value law *)
+
+  Lemma assoc_In (l : list (key * (cls * list V))) k x : assoc k l = Some x -> In (k, x) l.
+  Proof.
+    induction l as [|[k' y] r IH]; simpl; [discriminate|].
+    unfold key_eqb. destruct (str_eqb_spec k k') as [->|_].
+    - intros H; injection H as ->. left; reflexivity.
+    - intros H; right; auto.
+  Qed.
+
+  Lemma in_bounds_index ix sh : in_bounds ix sh -> index_in_bounds ix sh = true.
+  Proof.
+    unfold in_bounds, index_in_bounds. revert sh.
+    induction ix as [|z zs IH]; intros [|n ns] [Hl Hb]; simpl in *; try discriminate; [reflexivity|].
+    apply andb_true_iff; split.
+    - specialize (Hb 0 ltac:(lia)). simpl in Hb. apply andb_true_iff; split; [apply Z.leb_le | apply Z.ltb_lt]; lia.
+    - apply IH. split; [lia|]. intros j Hj. specialize (Hb (S j) ltac:(lia)). simpl in Hb. exact Hb.
+  Qed.
+
+  Lemma idx3_lt s t v nS nT nV : s < nS -> t < nT -> v < nV -> s + nS * (t + nT * v) < nS * nT * nV.
+  Proof.
+    intros Hs Ht Hv. assert (H1 : t + nT * v < nT * nV) by nia.
+    assert (H2 : nS * (t + nT * v) + nS <= nS * (nT * nV)) by nia. nia.
+  Qed.
+
+  Local Ltac finish Hlenvs :=
+    match goal with
+    | |- nth_res ?vs ?i = Ok (nth ?j ?vs ?d) =>
+        replace j with i by (try ring; nia); apply nth_res_ok; rewrite Hlenvs;
+        first [ nia
+              | match goal with
+                | |- ?s + ?t * ?a + ?v * (?a * ?T) < ?a * ?T * ?Vv =>
+                    replace (s + t * a + v * (a * T)) with (s + a * (t + T * v)) by ring;
+                    apply idx3_lt; lia
+                end ]
+    end.
+
+  Local Ltac bounds Hb :=
+    pose proof (Hb 0) as Hb0; pose proof (Hb 1) as Hb1; pose proof (Hb 2) as Hb2;
+    pose proof (Hb 3) as Hb3; pose proof (Hb 4) as Hb4;
+    cbn [nth length] in Hb0, Hb1, Hb2, Hb3, Hb4.
+
+  Lemma get_meta_value im (e : ext V) k ix d c vs :
+    valid e -> img_wf im ->
+    lookup_e e k = Some (c, vs) -> c <> GConst ->
+    agrees im (hdr_of e) c -> in_bounds ix (ishape im) ->
+    get_meta im e k (Some ix) d = Ok (den vnone e k (pos_of im ix)).
+  Proof.
+    intros [Hwf [_ Hent]] [Hilen Hisl] Hl Hc Ha Hib.
+    pose proof (assoc_In _ _ _ Hl) as Hin. destruct (Hent _ _ _ Hin) as [Hok [Hsl Hlenvs]].
+    destruct Hwf as [Hnd3 [_ [Hsd _]]].
+    pose proof (in_bounds_index _ _ Hib) as Hidx. destruct Hib as [Hlen Hb].
+    unfold get_meta, den. rewrite Hl.
+    assert (Hvis : visible (hdr_of e) (Some (c, vs)) = Some (c, vs)).
+    { unfold visible. rewrite class_valid_ok, Hok. reflexivity. }
+    rewrite Hvis, Hok.
+    destruct (cls_eqb_spec c GConst) as [->|_]; [contradiction|].
+    rewrite (proj2 (meta_valid_spec im _ c) Ha). cbn [negb].
+    rewrite Hlen, Nat.eqb_refl, Hidx. cbn [negb].
+    unfold pos_of, dims, ndim in *.
+    destruct c; try contradiction; cbn [agrees] in Ha.
+    - (* GSlices *)
+      destruct Ha as [isd [msd [Hi [Hm [Hn [_ Ht]]]]]]. rewrite Hi, Hm in *.
+      specialize (Hsd _ eq_refl). specialize (Hisl _ eq_refl). clear Hsl Hvis Hin Hent Hl Hidx.
+      destruct (shape (hdr_of e)) as [|a [|b [|c0 [|t [|v [|x r]]]]]]; cbn [length] in Hnd3; try lia;
+      destruct (ishape im) as [|a' [|b' [|c' [|t' [|v' [|x' r']]]]]]; cbn [length] in Hilen; try lia;
+      cbn [skipn] in Ht; try discriminate; try (injection Ht as <-); try (injection Ht as <- <-);
+      destruct ix as [|z0 [|z1 [|z2 [|z3 [|z4 [|z5 zr]]]]]]; cbn [length] in Hlen; try lia;
+      bounds Hb;
+      destruct msd as [|[|[|?]]]; try lia; destruct isd as [|[|[|?]]]; try lia;
+      cbn [nth] in Hn; subst;
+      cbn [map nth_res nth_error nth skipn combine fold_left fst snd bind cidx mult_spec length] in *;
+      finish Hlenvs.
+    - (* TSamples *)
+      clear Hsl Hvis Hin Hent Hl Hidx.
+      destruct (shape (hdr_of e)) as [|a [|b [|c0 [|t [|v [|x r]]]]]]; cbn [length] in Hnd3; try lia;
+      try discriminate Hok;
+      destruct (ishape im) as [|a' [|b' [|c' [|t' [|v' [|x' r']]]]]]; cbn [length] in Hilen; try lia;
+      cbn [skipn] in Ha; try discriminate; try (injection Ha as <-); try (injection Ha as <- <-);
+      destruct ix as [|z0 [|z1 [|z2 [|z3 [|z4 [|z5 zr]]]]]]; cbn [length] in Hlen; try lia;
+      bounds Hb;
+      cbn [map nth_res nth_error nth skipn combine fold_left fst snd bind cidx mult_spec length Nat.eqb] in *;
+      destruct (islice im); destruct (sdim (hdr_of e));
+      cbn [map nth_res nth_error nth bind cidx mult_spec] in *;
+      finish Hlenvs.
+    - (* TSlices *)
+      destruct Ha as [isd [msd [Hi [Hm [Hn [_ _]]]]]]. rewrite Hi, Hm in *.
+      specialize (Hsd _ eq_refl). specialize (Hisl _ eq_refl). clear Hsl Hvis Hin Hent Hl Hidx.
+      destruct (shape (hdr_of e)) as [|a [|b [|c0 [|t [|v [|x r]]]]]]; cbn [length] in Hnd3; try lia;
+      try discriminate Hok;
+      destruct (ishape im) as [|a' [|b' [|c' [|t' [|v' [|x' r']]]]]]; cbn [length] in Hilen; try lia;
+      destruct ix as [|z0 [|z1 [|z2 [|z3 [|z4 [|z5 zr]]]]]]; cbn [length] in Hlen; try lia;
+      bounds Hb;
+      destruct msd as [|[|[|?]]]; try lia; destruct isd as [|[|[|?]]]; try lia;
+      cbn [nth] in Hn; subst;
+      cbn [map nth_res nth_error nth skipn combine fold_left fst snd bind cidx mult_spec length] in *;
+      finish Hlenvs.
+    - (* VSamples *)
+      clear Hsl Hvis Hin Hent Hl Hidx.
+      destruct (shape (hdr_of e)) as [|a [|b [|c0 [|t [|v [|x r]]]]]]; cbn [length] in Hnd3; try lia;
+      try discriminate Hok;
+      destruct (ishape im) as [|a' [|b' [|c' [|t' [|v' [|x' r']]]]]]; cbn [length] in Hilen; try lia;
+      cbn [skipn] in Ha; try discriminate; try (injection Ha as <-);
+      destruct ix as [|z0 [|z1 [|z2 [|z3 [|z4 [|z5 zr]]]]]]; cbn [length] in Hlen; try lia;
+      bounds Hb;
+      cbn [map nth_res nth_error nth skipn combine fold_left fst snd bind cidx mult_spec length Nat.eqb] in *;
+      destruct (islice im); destruct (sdim (hdr_of e));
+      cbn [map nth_res nth_error nth bind cidx mult_spec] in *;
+      finish Hlenvs.
+    - (* VSlices *)
+      destruct Ha as [isd [msd [Hi [Hm [Hn [_ Ht]]]]]]. rewrite Hi, Hm in *.
+      specialize (Hsd _ eq_refl). specialize (Hisl _ eq_refl). clear Hsl Hvis Hin Hent Hl Hidx.
+      unfold py_slice in Ht.
+      destruct (shape (hdr_of e)) as [|a [|b [|c0 [|t [|v [|x r]]]]]]; cbn [length] in Hnd3; try lia;
+      try discriminate Hok;
+      destruct (ishape im) as [|a' [|b' [|c' [|t' [|v' [|x' r']]]]]]; cbn [length] in Hilen; try lia;
+      cbn [skipn firstn Nat.sub] in Ht; try discriminate; try (injection Ht as <-);
+      destruct ix as [|z0 [|z1 [|z2 [|z3 [|z4 [|z5 zr]]]]]]; cbn [length] in Hlen; try lia;
+      bounds Hb;
+      destruct msd as [|[|[|?]]]; try lia; destruct isd as [|[|[|?]]]; try lia;
+      cbn [nth] in Hn; subst;
+      cbn [map nth_res nth_error nth skipn combine fold_left fst snd bind cidx mult_spec length] in *;
+      finish Hlenvs.
   Qed.
 
   Lemma getitem_spec (e : ext V) k v :
